@@ -354,7 +354,7 @@ class ndarray:
     def astype(self, d, copy=True):
         d = _dt(d)
         if d == self.dt:
-            return self.copy()
+            return self.copy() if copy else self
         return ndarray._new([_cast(v, d) for v in self._flat()], self.shape, d)
 
     def reshape(self, *shape, order='C'):
